@@ -36,6 +36,11 @@ CLAIMED = {
         note="Trusted: Lean kernel; hand model of the decoders and of the worker iteration tied by correspondence; watchdog (SIGALRM + line-event counter). State-machine reaction to misaddressed requests / malformed CER is part of C06 (tick totality). Heap use is bounded via the object-count theorem, not measured.",
         technique="Lean 4 proof (well-founded recursion, strong induction on length) + malformed-input differential correspondence",
         design="4 C03"),
+    "C10": dict(
+        text="Lean: table facts decided completely by the kernel (decide +kernel) over the dictionary regenerated from the source on every run: every class has a modelled constructor shape; rows sharing a (vendor, code) key are the same definition; V flag iff vendor-specific, no reserved default flag bits; each class's key dispatches to its definition; no explicit vendor 0; enumerators distinct 32-bit values; every class matches the reviewed reference snapshot on name/vendor/code/type (and none disappeared); default flags match it except the two listed classes (known finding, _partial); every docs row names a class with that code and type. Constructor theorems for every kind and every Python value: accepted => the data is the well-formed encoding of that value (widths 4/8, enumerator membership, address family+width, URI acceptance, TBCD), Grouped => all mandatory members and data = concatenation of member encodings. Tie: translator validated against a live instance of each class; ~45 values of all Python types per class + in-domain values through the real constructors; Grouped classes with each mandatory member dropped.",
+        note="Trusted: Lean kernel; gen_dict.py translator; reference/dictionary.json (reviewed snapshot, not an independent authority); hand model of the typed constructors tied by correspondence; CPython ipaddress/datetime/struct/re. Known finding C10-default-flags-297-299 (tests pin it).",
+        technique="Lean 4 proof (decide +kernel over regenerated tables; case analysis per kind) + differential correspondence",
+        design="4 C10"),
 }
 
 NOT_YET = {
